@@ -78,17 +78,31 @@ class Recorder:
             raise
         if self.best_failure is None:
             # only the generation phase counts as coverage
-            self.evaluations += 1
             labels, nontrivial = stage.classify(case, info)
             for label in labels:
                 self.labels[label] += 1
-            if nontrivial:
-                key = sha(stage.key(case) if stage.key else case)[:20]
-                if key not in self.nontrivial:
-                    self.nontrivial.add(key)
-                    self.labels["nontrivial"] += 1
-                    if len(self.samples) < 4:
-                        self.samples.append(stage.sample(case) if stage.sample else case)
+            units = info.get("_units") if isinstance(info, dict) else None
+            if units is not None:
+                # one generated case covers several (input, assignment/schedule/...) units
+                self.evaluations += len(units)
+                self.labels["generated-cases"] += 1
+                fresh = False
+                for unit_key, unit_nontrivial in units:
+                    if unit_nontrivial:
+                        key = sha(unit_key)[:20]
+                        if key not in self.nontrivial:
+                            self.nontrivial.add(key)
+                            fresh = True
+                if fresh and len(self.samples) < 4:
+                    self.samples.append(stage.sample(case) if stage.sample else case)
+            else:
+                self.evaluations += 1
+                if nontrivial:
+                    key = sha(stage.key(case) if stage.key else case)[:20]
+                    if key not in self.nontrivial:
+                        self.nontrivial.add(key)
+                        if len(self.samples) < 4:
+                            self.samples.append(stage.sample(case) if stage.sample else case)
         return info
 
     def take_failure(self):
@@ -362,7 +376,7 @@ def parent_main(args):
             stages_cov[name]["stopped_early"] = sorted(set(agg["stopped"]))
         if agg["evaluations"] and not failures:
             for label, floor in stage_defs[name].floors.items():
-                share = agg["labels"].get(label, 0) / agg["evaluations"]
+                share = agg["labels"].get(label, 0) / (agg["labels"].get("generated-cases") or agg["evaluations"])
                 if share < floor:
                     degenerate.append(f"stage {name}: label '{label}' share {share:.3f} < floor {floor}")
 
